@@ -9,6 +9,7 @@ import (
 	"fmt"
 	"io"
 	"strings"
+	"sync"
 	"time"
 
 	log "github.com/sirupsen/logrus"
@@ -37,6 +38,9 @@ type Client struct {
 	messageSwitch   utils.MessageSwitch
 	stageHandler    *stages.StageHandler
 	transferManager *utils.TransferManager
+
+	// transferManagerMutex guards the transferManager field, which is reset once the session is gone.
+	transferManagerMutex sync.RWMutex
 
 	nodeId     bpv7.EndpointID
 	peerNodeId bpv7.EndpointID
@@ -143,7 +147,9 @@ func (client *Client) Start() (err error, retry bool) {
 
 	case sMtu := <-sMtuChan:
 		stageHandlerIn, stageHandlerOut := client.stageHandler.Exchanges()
+		client.transferManagerMutex.Lock()
 		client.transferManager = utils.NewTransferManager(stageHandlerIn, stageHandlerOut, sMtu)
+		client.transferManagerMutex.Unlock()
 	}
 
 	client.log().Info("Started TCPCLv4")
@@ -182,7 +188,9 @@ func (client *Client) handle() {
 			}
 		}
 
+		client.transferManagerMutex.Lock()
 		client.transferManager = nil
+		client.transferManagerMutex.Unlock()
 		client.stageHandler = nil
 		client.messageSwitch = nil
 
@@ -221,7 +229,14 @@ func (client *Client) Send(b bpv7.Bundle) error {
 	client.log().WithField("bundle", b).Debug("Sending Bundle...")
 	defer client.log().WithField("bundle", b).Info("Sent Bundle")
 
-	return client.transferManager.Send(b)
+	client.transferManagerMutex.RLock()
+	transferManager := client.transferManager
+	client.transferManagerMutex.RUnlock()
+
+	if transferManager == nil {
+		return fmt.Errorf("TCPCLv4 session is not established or was already closed")
+	}
+	return transferManager.Send(b)
 }
 
 // Close signals this Client to shut down.
